@@ -158,6 +158,12 @@ func slotAlts() []slotAlt {
 		{label: "OptID", typ: "OptID", declA: "type OptID struct {\n\tValid bool\n\tID Count\n}\n", local: true},
 		// a struct with an SQL guard: an unexported field that only the SQL targets know
 		{label: "Guarded", typ: "Guarded", declA: "type Guarded struct {\n\tLabel string\n\tguard Color `gomacro-sql-guard:\"#[Color.Red]\"`\n\tN     int\n}\n", local: true},
+		// named types over predeclared kinds that nothing else in the program uses plainly
+		{label: "Flag", typ: "Flag", declA: "type Flag bool\n", local: true},
+		{label: "Ratio", typ: "Ratio", declA: "type Ratio float64\n", local: true},
+		// a generic declaration whose parameter does not appear in its structure
+		{label: "Tagged[Count]", typ: "Tagged[Count]", declA: "type Tagged[T any] struct {\n\tLabel string\n}\n", local: true},
+		{label: "TypedID[Item]", typ: "TypedID[Item]", declA: "type TypedID[T any] int64\n", local: true},
 		{label: "OptTags", typ: "OptTags", declA: "type OptTags struct {\n\tValid bool\n\tL     []string\n}\n", local: true},
 		{label: "OptID-reversed", typ: "OptID", declA: "type OptID struct {\n\tID Count\n\tValid bool\n}\n", local: true},
 		{label: "OptDate", typ: "OptDate", declA: "type OptDate struct {\n\tD Date\n\tValid bool\n}\n", declB: "type Date time.Time\n" + dateCompanions, local: true},
@@ -276,7 +282,7 @@ func TypesWith(c explore.Chooser, opt TypesOpt) *prog.Program {
 	}
 
 	enumForm := s.Pick("enum.form", "iota-uint8", "explicit-int-unexported-middle", "string", "alias-member", "unexported-first", "other-file", "negative", "bool-backed", "float-backed", "dup-values", "flagged-default-first", "flagged-default-middle")
-	unionForm := s.Pick("union.members", "2-structs", "1-struct", "named-int-member", "named-slice-member", "named-map-member", "pointer-receiver-non-member", "extra-marker-method", "enum-member", "member-in-other-file", "member-by-embedding")
+	unionForm := s.Pick("union.members", "2-structs", "1-struct", "named-int-member", "named-slice-member", "named-map-member", "pointer-receiver-non-member", "extra-marker-method", "enum-member", "member-in-other-file", "member-by-embedding", "generic-phantom-member")
 	second := s.Pick("union.second", "none", "shares-member-different-prefix", "shares-member-same-prefix", "same-name-in-sub", "disjoint")
 	container := s.Pick("union.container", "named-slice", "named-map", "named-array", "none", "named-map-enum-key", "named-map-named-key", "two-named-slices", "two-named-maps", "named-array-5")
 	alts := slotAlts()
@@ -306,7 +312,7 @@ func TypesWith(c explore.Chooser, opt TypesOpt) *prog.Program {
 	host := s.Pick("slot.host", hosts...)
 	slotFirst := s.Pick("slot.position", "last", "first") == "first"
 	neighbourTag := s.Pick("union.neighbour-tag", "", "`json:\"name\"`", "`json:\"-\"`", "`json:\"n,omitempty\"`")
-	unionFieldTag := s.Pick("union.field-tag", "", "`json:\"-\"`", "`json:\"sh\"`", "`json:\"sh,omitempty\"`", "`gomacro:\"ignore\"`")
+	unionFieldTag := s.Pick("union.field-tag", "", "`json:\"-\"`", "`json:\"sh\"`", "`json:\"sh,omitempty\"`", "`gomacro:\"ignore\"`", "`json:\"-,\"`", "`json:\"-,omitempty\"`", "`gomacro-data:\"ignore\"`")
 	embedded := s.Pick("embedded", "none", "exported", "unexported", "tagged", "from-sub", "non-struct", "tagged-same-name", "tagged-omitempty", "unexported-in-member", "pointer", "shared-first-3", "refers-back", "other-file")
 	reexport := s.Pick("root-const-of-sub-enum", "no", "yes")
 	style := s.Pick("decl.style", "separate", "grouped", "same-line")
@@ -420,6 +426,10 @@ func TypesWith(c explore.Chooser, opt TypesOpt) *prog.Program {
 		methods = append(methods, "func (*Ghost) isShape() {}")
 	case "enum-member":
 		methods = append(methods, "func (Color) isShape() {}")
+	case "generic-phantom-member":
+		// a generic struct whose parameter does not appear in its fields has the marker method
+		add("type Phantom[T any] struct {\n\tLabel string\n}")
+		methods = append(methods, "func (Phantom[T]) isShape() {}")
 	case "member-by-embedding":
 		// no method of its own: it implements Shape through the method promoted from Square
 		add("type Disc struct {\n\tSquare\n\tTint string\n}")
